@@ -22,7 +22,9 @@ META = {
                  "+ crash-point sweeps on both real solvers with a counting/panicking RustIrDatabase wrapper",
     "level_text": "every callback of the engine into the solver-specific part is a numbered point of the model at which a panic may be injected; "
                   "the theorems quantify over all crash points and all and-or graphs; the real engine is crashed at every point up to the clean run's count.",
-    "level_note": "SLG (Drop for SolveState / re-enqueueing of strands) is tested only: every n-th database call panics, then all goals again",
+    "level_note": "SLG (Drop for SolveState / re-enqueueing of strands / table construction) is tested only: the n-th database callback panics "
+                  "(every RustIrDatabase method incl. unification_database() and the UnificationDatabase methods adt_variance / fn_def_variance; "
+                  "not interner()), for every n on the sweep programs and sampled otherwise but always with the calls made during clause resolution; then all goals again",
     "design_ref": "DESIGN.md §4 C12",
     "bins": ["engine", "hist"],
     "assumptions": [
@@ -118,13 +120,15 @@ def solver_part(ctx):
         for sname, solver in solvers:
             for gi, gt in enumerate(gts):
                 i1.append((pi, sname, gi))
-                c1.append(H.case(text, solver, [H.solve_step(gt)]))
+                c1.append(H.case(text, solver, [H.solve_step(gt)], trace=True))
     r1, _ = H.run(c1, timeout=ctx.n(600, 2400))
-    fresh, calls = {}, {}
+    fresh, calls, traces = {}, {}, {}
     for key, r in zip(i1, r1):
         if r is not None:
             fresh[key] = r[0]["ans"]
             calls[key] = r[0]["db"]
+            traces[key] = r[0].get("trace", [])
+    cb_seen, n_resolution = {}, 0
     c2, i2 = [], []
     for pi, (p, text, goals, gts, solvers, sweep_all) in enumerate(progs):
         for sname, solver in solvers:
@@ -136,6 +140,20 @@ def solver_part(ctx):
                 if ctx.quick and len(ns) > 7 and not sweep_all:
                     stride = max(1, len(ns) // 4)
                     ns = sorted(set([0, 1, len(ns) - 1] + ns[::stride]))
+                # the faults that land in clause RESOLUTION (unification_database / adt_variance / fn_def_variance
+                # asked for while a clause is resolved against the goal) are always included
+                tr = traces.get((pi, sname, gi), [])
+                for nm in tr:
+                    cb_seen[nm] = cb_seen.get(nm, 0) + 1
+                resol = H.resolution_calls(tr)
+                cap = ctx.n(10, 60)
+                if len(resol) > cap:
+                    step = len(resol) / float(cap)
+                    resol = sorted(set([resol[int(i * step)] for i in range(cap)] + [resol[0], resol[-1]]))
+                unif = [i for i, nm in enumerate(tr) if nm in H.UNIF_CALLBACKS and i not in resol]
+                extra_u = rng.sample(unif, min(len(unif), ctx.n(2, 10)))
+                ns = sorted(set(ns) | set(resol) | set(extra_u))
+                n_resolution += len(resol)
                 for k in ns:
                     i2.append((pi, sname, gi, (k,)))
                     c2.append(H.case(text, solver, [H.panic_step(gt, [k])] + [H.solve_step(x) for x in gts]))
@@ -196,6 +214,9 @@ def solver_part(ctx):
                 nv += 1
                 ctx.violation(pair["viol"])
     ctx.cov["solver"] = stats
+    ctx.cov["fault_points"] = {"callbacks_seen_in_clean_solves": dict(sorted(cb_seen.items())),
+                               "resolution_faults_injected": n_resolution,
+                               "not_a_fault_point": ["interner (called from everywhere incl. Drop; covered by the repo's own panic.rs)"]}
     ctx.cov["known_class_share"] = round(stats["known_class"] / max(1, stats["pairs"]), 3)
     ctx.cov["inconclusive"] = stats["inconclusive"]
     if c2:
